@@ -8,6 +8,7 @@ import (
 	stdx509 "crypto/x509"
 	"crypto/x509/pkix"
 	"encoding/asn1"
+	"encoding/base64"
 	"encoding/hex"
 	"encoding/json"
 	"encoding/pem"
@@ -283,7 +284,12 @@ func (r *Report) sample(v interface{}) {
 	}
 }
 func (r *Report) violate(v Violation) {
-	if len(r.Violations) < 50 {
+	k := "viol:" + v.Property + "|" + v.Key
+	r.Dist[k]++
+	if r.Dist[k] > 1 { // one representative per (property, key); the count is in dist
+		return
+	}
+	if len(r.Violations) < 200 {
 		r.Violations = append(r.Violations, v)
 	}
 }
@@ -316,3 +322,10 @@ func joinInts(xs []int) string {
 	}
 	return strings.Join(p, ",")
 }
+
+func decodeB64(s string) ([]byte, error) {
+	s = strings.Join(strings.Fields(s), "")
+	return base64Std.DecodeString(s)
+}
+
+var base64Std = base64.StdEncoding
